@@ -147,6 +147,12 @@ func configuredFaults(p *plan.Plan) []string {
 	if p.Schedule.YieldCostNs > 0 {
 		out = append(out, "clock:cpu-time-charged")
 	}
+	if p.Schedule.StartOffsetNs > 0 {
+		out = append(out, "clock:jump-before-first-call")
+	}
+	if p.Proc != nil {
+		out = append(out, "process-environment")
+	}
 	if p.Sink != "" && p.Sink != "null" {
 		out = append(out, "sink:"+p.Sink)
 	}
@@ -490,8 +496,11 @@ func dimensions(p *plan.Plan) []string {
 	} else if nops > 1 {
 		d = append(d, "history")
 	}
-	if len(p.Schedule.Stalls) > 0 || p.Schedule.YieldCostNs > 0 {
+	if len(p.Schedule.Stalls) > 0 || p.Schedule.YieldCostNs > 0 || p.Schedule.StartOffsetNs > 0 {
 		d = append(d, "clock")
+	}
+	if p.Proc != nil {
+		d = append(d, "procenv")
 	}
 	if len(p.Schedule.Gaps) > 0 && len(p.Tasks) <= 1 {
 		d = append(d, "schedule")
@@ -648,6 +657,20 @@ func (c *Check) minimise(v *Violation, budget time.Duration) (*plan.Plan, *Viola
 			return false
 		}
 		q.Schedule.YieldCostNs = 0
+		return true
+	})
+	try(func(q *plan.Plan) bool {
+		if q.Schedule.StartOffsetNs == 0 {
+			return false
+		}
+		q.Schedule.StartOffsetNs = 0
+		return true
+	})
+	try(func(q *plan.Plan) bool {
+		if q.Proc == nil {
+			return false
+		}
+		q.Proc = nil
 		return true
 	})
 	try(func(q *plan.Plan) bool {
